@@ -112,3 +112,14 @@ Proof.
   intros N buckets rm saw_unk up unigrams higher t K HN Hl U M HU Hs Hw Hu Hload ctx w Hk.
   exact (forgot_prob N HN _ _ K (load_probing_inv N buckets rm saw_unk up unigrams higher t HN Hl HU Hs Hw Hu Hload) ctx w Hk).
 Qed.
+
+(* the trie loader model on files that do not list <unk> (no listed n-gram may then use word id 0 as a unigram key:
+   id 0 is reserved for the synthesised <unk>) *)
+Theorem C01_load_trie_inv_nounk : forall N (unigrams : list gram) (higher : list (list gram)) unk_prob t, (2 <= N)%nat ->
+  let U := unk_gram_t unk_prob :: unigrams in
+  (forall g, In g (unigrams ++ concat higher) -> g_key g <> [0%N]) ->
+  (forall g, In g (U ++ concat higher) -> (1 <= length (g_key g) <= N)%nat) ->
+  (forall g w, In g (U ++ concat higher) -> In w (g_key g) -> M_of (U ++ concat higher) [w] <> None) ->
+  load_trie N false unk_prob unigrams higher = Loaded t ->
+  TInv N (alookup t) (M_of (U ++ concat higher)).
+Proof. exact load_trie_inv_nounk. Qed.
